@@ -11,3 +11,13 @@ from .client import *
 from .server import *
 
 from .._generated.net import *
+
+# The star imports above also copy same-named submodule attributes of other packages
+# (e.g. the generated twins); make sure this package's own subpackages are what the
+# attributes resolve to.
+import sys as _sys
+
+client = _sys.modules[__name__ + '.client']
+server = _sys.modules[__name__ + '.server']
+
+del _sys
